@@ -17,6 +17,7 @@ RULE = ("histories over 1-4 resources with 0-3 isolation rules each (thresholds 
 
 U32 = 2 ** 32
 RES = ["a", "b", "c", "d"]
+TYPES = ["common", "web", "rpc", "rpc", "gateway", "dbsql", "cache", "mq"]
 THR_SMALL = [1, 1, 2, 2, 3, 3, 5]
 THR_EDGE = [0, 2 ** 31 - 1, 2 ** 31, U32 - 2, U32 - 1]
 
@@ -105,7 +106,8 @@ def gen_case(rng, cid):
                 cls.append("dup")
                 continue
             b = pick_batch(rng, sim, res, cls)
-            ops.append(f"entry {i} {res} {b}")
+            ty = f" type={rng.choice(TYPES)}" if rng.random() < 0.3 else ""
+            ops.append(f"entry {i} {res} {b}{ty}")
             if sim.admit(res, b):
                 sim.live[i] = res
             else:
@@ -130,9 +132,19 @@ def gen_case(rng, cid):
                 cls.append("exit?")
             if i in sim.live:
                 continue
-            ops.append(f"exit {i}")
-        elif x < 0.84:
+            z = rng.random()
+            if z < 0.08:
+                ops.append(f"dexit {i}")        # two goroutines call Exit on this entry at once
+                cls.append("dexit")
+            else:
+                if rng.random() < 0.25:
+                    ops.append(f"trace {i}")
+                ops.append(f"exit {i} err" if z < 0.45 else f"exit {i}")
+        elif x < 0.81:
             ops.append(f"conc {res}")
+        elif x < 0.84:
+            ids = list(sim.live) + sim.exited[-3:] + sim.blocked[-2:]
+            ops.append(f"trace {rng.choice(ids) if ids else 7}")
         elif x < 0.90:
             k = rng.choice([1, 2, 2, 3, 3, 4, 6])
             b = pick_batch(rng, sim, res, cls)
@@ -225,12 +237,12 @@ def nontrivial(case, impl):
                 kinds.append("B")
             else:
                 kinds.append("D")
-        elif t[0] == "exit":
+        elif t[0] in ("exit", "dexit"):
             if t[1] in live:
                 if live[-1] != t[1]:
                     ooo = True
                 live.remove(t[1])
-                kinds.append("X")
+                kinds.append("X" + t[0][0] + (t[2][0] if len(t) > 2 else ""))
             else:
                 kinds.append("x")
         elif t[0] in ("par", "sched"):
@@ -283,7 +295,8 @@ def soak_cases(rng, tier, tag):
         ops = [f"load a:{N} a:{N + rng.choice([0, 1, 5])} b:{rng.choice([1, 4])}"]
         for j in range(base):
             ops.append(f"entry {j + 1} a 1")
-        ops += [f"soak a {G} {rounds} {b}", "conc a"]
+        x2 = " x2" if k % 2 == 1 else ""        # every admitted entry exited by two goroutines at once
+        ops += [f"soak a {G} {rounds} {b}{x2}", "conc a"]
         if rng.random() < 0.5:
             ops += [f"soak b {rng.choice([4, 8])} {rounds // 2} 1", "conc b"]
         for j in range(base):
@@ -291,7 +304,7 @@ def soak_cases(rng, tier, tag):
                 ops.append(f"exit {j + 1}")
         ops.append("conc a")
         ops += [f"entry {100 + j} a 1" for j in range(N + 1)]      # fill up: exactly the free capacity is admitted
-        ops += ["conc a", f"soak a {G} {max(rounds // 4, 100)} 1", "conc a"]
+        ops += ["conc a", f"soak a {G} {max(rounds // 4, 100)} 1{' x2' if k % 2 == 0 else ''}", "conc a"]
         cases.append(Case(f"{tag}-{k}", ops, tags=("soak", f"N={N}", f"G={G}", f"b={b}")))
     return cases
 
